@@ -47,6 +47,39 @@ def gen_cases(rng, tier):
 		if len(s) > 500:
 			s = s[:500]
 		cases.append({'k': 'frag', 'kind': kind, 's': s.hex(), 'cuts': [[], list(range(1, len(s)))] + streams.single_cuts(s, None if tier == 'thorough' else 120)})
+	# header sections with a field repeated on the wire (each with its own join separator: Cookie '; ', others ', '), other fields in between,
+	# continuation lines; every two-call fragmentation + per octet: a repeated field whose occurrences arrive in different calls
+	rep_names = [b'Cookie', b'cookie', b'Foo', b'Accept', b'Set-Cookie', b'WWW-Authenticate', b'Via']
+	for i in range(60 if tier == 'thorough' else 10):
+		kind = 'server' if i % 2 == 0 else 'client'
+		a, b2 = rng.choice(rep_names), rng.choice(rep_names)
+		lines = [a + b': a=1', b2 + b': x', rng.choice([a, a.upper(), a.lower()]) + b': b=2', b'Other: o', rng.choice([b2, b2.upper()]) + b':y', a + b': c=3']
+		if rng.random() < .5:
+			lines.insert(rng.randrange(1, len(lines)), b' folded')
+		if rng.random() < .5:
+			rng.shuffle(lines)
+			if lines[0].startswith(b' '):
+				lines.append(lines.pop(0))
+		head = (b'GET / HTTP/1.1\r\nHost: h\r\n' if kind == 'server' else b'HTTP/1.1 200 OK\r\nContent-Length: 0\r\n')
+		s = head + b'\r\n'.join(lines) + b'\r\n\r\n'
+		cases.append({'k': 'frag', 'kind': kind, 's': s.hex(), 'cuts': [[], list(range(1, len(s)))] + streams.single_cuts(s, None)})
+	# stray line ends around well-formed messages (before the first start line, between pipelined messages, after the last one): whatever the
+	# machine does with them, it must do the same when CR and LF arrive in different calls
+	for i in range(40 if tier == 'thorough' else 8):
+		kind = 'server' if i % 2 == 0 else 'client'
+		gts, sers = streams.gen_wf(rng, kind, n=2)
+		sers = [x for x in sers if len(x) < 220] or [b'GET / HTTP/1.1\r\nHost: h\r\n\r\n' if kind == 'server' else b'HTTP/1.1 200 OK\r\nContent-Length: 0\r\n\r\n']
+		stray = rng.choice([b'\r\n', b'\r\n\r\n', b'\n', b'\r\n'])
+		where = i % 4
+		if where == 0:
+			s = stray + b''.join(sers)
+		elif where == 1:
+			s = sers[0] + stray + b''.join(sers[1:] or sers[:1])
+		elif where == 2:
+			s = b''.join(sers) + stray
+		else:
+			s = stray + sers[0] + stray + b''.join(sers[1:]) + stray
+		cases.append({'k': 'frag', 'kind': kind, 's': s.hex(), 'cuts': [[], list(range(1, len(s)))] + streams.single_cuts(s, None if tier == 'thorough' else 150)})
 	if tier == 'thorough':
 		# all 2^(n-1) fragmentations of short streams over a message-skeleton alphabet
 		skel = [b'GET / HTTP/1.1\r\n', b'Host:x\r\n', b'\r\n', b'A:b\r\n', b'Content-Length:2\r\n', b'ab', b'Transfer-Encoding:chunked\r\n', b'1\r\nz\r\n', b'0\r\n\r\n', b'HTTP/1.1 200 OK\r\n', b'\r', b'\n', b' c\r\n']
